@@ -136,15 +136,15 @@ Definition lit_pose_unnormalize_distribution_body : list string :=
   [ "self.body.data = self.body.data * std + mu" ].
 
 Definition lit_tf_mean_body : list string :=
-  [ "mt_sum = tf.math.reduce_sum(self.zero_filled(), axis=axis)";
-    "mt_count = tf.math.reduce_sum(tf.cast(self.mask, mt_sum.dtype), axis=axis)";
+  [ "mt_sum = tf.math.reduce_sum(self.zero_filled(), axis=axis, keepdims=keepdims)";
+    "mt_count = tf.math.reduce_sum(tf.cast(self.mask, mt_sum.dtype), axis=axis, keepdims=keepdims)";
     "tensor = tf.math.divide(mt_sum, mt_count)";
     "mask = tf.cast(mt_count, tf.bool)";
     "mt = MaskedTensor(tensor=tensor, mask=mask)";
     "return mt.fix_nan()" ].
 
 Definition lit_tf_variance_body : list string :=
-  [ "means = self.mean(axis=axis)";
+  [ "means = self.mean(axis=axis, keepdims=True)";
     "diff = self - means";
     "squared_deviations = diff.square()";
     "return squared_deviations.mean(axis=axis)" ].
